@@ -222,6 +222,52 @@ def p_to_matrix(ctx, c, outs):
     return None
 
 
+def p_neo_euler(ctx, c, outs):
+    """the neo-Eulerian vector classes of `orix.vector.neo_euler` built FROM a rotation: each describes the rotation it was
+    built from (Rodrigues: axis * tan(w/2), where finite; axis-angle: axis * w; homochoric: the same vector as
+    `to_homochoric`), and `AxAngle.from_axes_angles(axes, angles, degrees)` = angle * unit axis"""
+    I = _imp()
+    w = quiet()
+    try:
+        from orix.vector.neo_euler import AxAngle, Homochoric, Rodrigues
+        from orix.quaternion import Rotation
+        obj, ref, shp = build(c)
+        if obj.size == 0 or c["cls"] == "Quaternion":
+            return None
+        r = Rep(ctx, "neo_euler", c)
+        t, tom = taus(c)
+        R = Rotation(obj)
+        refq = ref.reshape(-1, 4)
+        ang = 2 * np.arctan2(np.linalg.norm(refq[:, 1:], axis=1), np.abs(refq[:, 0]))
+        # axis-angle vector
+        ax = np.asarray(AxAngle.from_rotation(R).data, float).reshape(-1, 3)
+        m1 = mis(quat_of_rotvec(ax), refq)
+        r.elems("axangle", ~(m1 <= t), lambda i: f"AxAngle.from_rotation of q = {refq[i].tolist()} is {ax[i].tolist()}, a rotation {m1[i]:.3g} rad away")
+        # Rodrigues vector: defined away from two-fold rotations
+        with np.errstate(all="ignore"):
+            ro = Rodrigues.from_rotation(R)
+            rod = np.asarray(ro.data, float).reshape(-1, 3)
+            fin = (ang < math.pi - 1e-3) & np.isfinite(rod).all(axis=1)
+            m2 = np.where(fin, mis(quat_of_rodrigues(np.where(fin[:, None], rod, 0.0)), refq), 0.0)
+            ra = np.asarray(ro.angle, float).reshape(-1)
+        r.elems("rodrigues", fin & ~(m2 <= t * (1 + np.tan(np.minimum(ang, 3.0) / 2) ** 2)), lambda i: f"Rodrigues.from_rotation of q = {refq[i].tolist()} is {rod[i].tolist()}, a rotation {m2[i]:.3g} rad away")
+        r.elems("rodrigues_angle", fin & ~(np.abs(ra - ang) <= t * (1 + np.tan(np.minimum(ang, 3.0) / 2) ** 2)), lambda i: f"Rodrigues(...).angle = {ra[i]!r} for a rotation by {ang[i]!r}")
+        # homochoric vector: the same as the method of the rotation
+        ho = np.asarray(Homochoric.from_rotation(R).data, float).reshape(-1, 3)
+        ho2 = np.asarray(R.to_homochoric().data if hasattr(R.to_homochoric(), "data") else R.to_homochoric(), float).reshape(-1, 3)
+        pos = refq[:, 0] >= 0                      # (for a negative scalar part to_homochoric has an open finding)
+        r.elems("homochoric", pos & ~(np.abs(ho - ho2).max(axis=1) <= 1e-7), lambda i: f"Homochoric.from_rotation = {ho[i].tolist()} but to_homochoric = {ho2[i].tolist()} for q = {refq[i].tolist()}")
+        # constructor from axes and angles
+        axes = refq[:, 1:] + np.array([1e-3, 2e-3, 3e-3])
+        for deg in (False, True):
+            aa = np.asarray(AxAngle.from_axes_angles(axes * 2.5, np.rad2deg(ang) if deg else ang, degrees=deg).data, float).reshape(-1, 3)
+            want = ang[:, None] * axes / np.linalg.norm(axes, axis=1, keepdims=True)
+            r.elems("from_axes_angles", ~(np.abs(aa - want).max(axis=1) <= 1e-12 * np.maximum(1.0, ang)), lambda i: f"AxAngle.from_axes_angles(axis {axes[i].tolist()}, angle {ang[i]!r}, degrees={deg}) = {aa[i].tolist()}, expected {want[i].tolist()}")
+    finally:
+        w.__exit__(None, None, None)
+    return None
+
+
 def p_sequence(ctx, c, outs):
     """all conversions (and the axis / angle reads they share code with) on ONE object, in a seeded order: the object's
     data must not change, so a later conversion of the same object still describes the same rotation"""
@@ -824,6 +870,7 @@ SITES = {
     "to_homochoric": sites.Site("to_homochoric", "prop", p_to_homochoric),
     "act": sites.Site("act", "prop", p_act),
     "sequence": sites.Site("sequence", "prop", p_sequence),
+    "neo_euler": sites.Site("neo_euler", "prop", p_neo_euler),
     "from_euler": sites.Site("from_euler", "prop", p_from_euler),
     "from_matrix": sites.Site("from_matrix", "prop", p_from_matrix),
     "from_axes_angles": sites.Site("from_axes_angles", "prop", p_from_axes_angles),
@@ -1053,6 +1100,7 @@ def generate(ctx):
                 cs["order"] = [int(x) for x in rng.permutation(9)]
                 ctx.count(f"sequence/{s}", ("seq", qs, cs["order"]), nontrivial=nontriv)
                 yield "sequence", cs
+                yield "neo_euler", cs
             if n:
                 ca = dict(c)
                 ca["v"] = G.vec(rng)
